@@ -8,28 +8,23 @@ def selfcheck():
 
 
 def _dead_probe_hook(runner, rec, gen, rng):
-    """C05 continuation: after a measurement, issue one request on each freshly destroyed subsystem"""
+    """C05 continuation: after a measurement, issue one request on each freshly destroyed subsystem (through the
+    subsystem itself, its envelope or a handle of its composite)"""
     st = rec.step
     if st["k"] != "measure" or rec.exc is not None:
         return []
+    from pwv.drivers_misc import dead_request
+    from pwv.world import Malformed, TooBig
     out = []
-    w = rec.world
+    try:
+        v = gen.view(runner)
+    except (Malformed, TooBig):
+        return []
     for n in rec.pre.order:
         if not rec.pre.subs[n]["measured"] and rec.post.subs[n]["measured"]:
-            kind = w.kind(n)
-            x = rng.random()
-            if x < 0.4:
-                op = gen.pol_op() if kind == "P" else {"fam": "fock", "type": gen.ch(["Creation", "PhaseShift", "Identity"]), "phi": 0.3}
-                if kind == "F" and op["type"] != "PhaseShift":
-                    op.pop("phi", None)
-                out.append({"k": "apply", "via": "state", "targets": [n], "op": op, "dead_probe": True})
-            elif x < 0.7:
-                out.append({"k": "measure", "via": "state", "targets": [n], "dead_probe": True})
-            else:
-                import numpy as np
-                from pwv.world import c2j
-                d = 2 if kind == "P" else max(2, rec.pre.subs[n]["dims"] if rec.pre.subs[n]["dims"] and rec.pre.subs[n]["dims"] > 0 else 2)
-                out.append({"k": "kraus", "via": "state", "targets": [n], "ops": [c2j(np.eye(d))], "dead_probe": True})
+            d = dead_request(gen, v, rng, n)
+            d["dead_probe"] = True
+            out.append(d)
     return out[:2]
 
 
@@ -91,13 +86,14 @@ def _c16_hybrid(a, col):
     a.budget = full * 0.6
     c16_driver(a, col)
     a.budget = full
-    conf = {"profile": "ops", "oracles": [_o2("judge_c16_step")],
-            "opts": {"approx_ops": False, "fock_types": ["Expresion"], "comp_types": ["Expression"], "weights": {"applyc": 6, "apply1": 6}}}
+    conf = {"profile": "ops", "oracles": [_o2("judge_c16_step"), _o2("judge_c16_effect")],
+            "opts": {"approx_ops": False, "fock_types": ["Expresion"], "comp_types": ["Expression"], "op_reuse": 0.4,
+                     "weights": {"applyc": 6, "apply1": 6}}}
     run_programs("C16", conf, a.tier, a.seed, a.shard, a.nshards, full * 0.4, col)
     col.extra["contract_evaluations"] = dict(contracts.COUNT)
 
 
-_C08_PROG = {"profile": "levels", "oracles": [_o2("judge_c08")], "opts": {"approx_ops": False, "near_basis": True}}
+_C08_PROG = {"profile": "levels", "oracles": [_o2("judge_c08")], "opts": {"approx_ops": False, "near_basis": True, "lifecycle": 0.15, "near_pure": 0.3}}
 _C10_PROG = {"profile": "resize", "oracles": [_o2("judge_resize"), _o2("judge_truncation")],
              "opts": {"env_max": 2, "cus_max": 1, "fock_types": ["Displace", "Squeeze", "Creation", "Annihilation", "PhaseShift", "Custom"]}}
 _C11_PROG = {"profile": "optics", "oracles": [_o2("judge_c11")],
@@ -124,7 +120,7 @@ PROPS = {
             "rule": "metamorphic twins: a world whose subsystems hold numerically equal states vs (labels mode) the same world with distinct labels of the same kind and level - structure compared: exceptions, outcome key sets, live sets, storage partition, returned shapes - or (arrays mode) the same physical world with every vector given its own global phase - structure and joint state compared after every step; cell = (twin, mode, step kind, entry, #operands)"},
     "C12": {"driver": _c12_hybrid, "profile": "contract-sweep + in-situ", "replay_oracles": [_o2("judge_c12_step")],
             "rule": "contract on every operator constructor of photon_weave._math.ops and on Operation(...).operator, evaluated on a parameter sweep (angles in [-4pi, 6pi], complex alpha/zeta of any phase, cutoffs 1..24 quick / 1..40 thorough) against an independent numpy/scipy operator library plus algebraic identities; a case = one contract/identity evaluation; cell = (function, parameter class); every cell is non-trivial except none (no fresh-label notion here)"},
-    "C16": {"driver": _c16_hybrid, "profile": "contract-trees + in-situ", "replay_oracles": [_o2("judge_c16_step")],
+    "C16": {"driver": _c16_hybrid, "profile": "contract-trees + in-situ", "replay_oracles": [_o2("judge_c16_step"), _o2("judge_c16_effect")],
             "rule": "contract on photon_weave.extra.expression_interpreter.interpreter (every nested evaluation) comparing the value with an independent evaluator run on a pre-call deep copy, byte-comparing caller-owned array leaves and context results before/after, checking the dimension list handed to the context, and malformed head symbols; random trees over all seven commands with numeric/numpy/jax/context-name leaves; a case = one judged evaluation; cell = (head command, tree depth | check kind)"},
     "C19": {"driver": _lazy("pwv.drivers_pure", "c19_driver"), "profile": "contract-overlap",
             "rule": "contract on Envelope.overlap_integral against the closed-form Gaussian overlap, plus exchange symmetry; pulse widths log-uniform over 1e-15..10 s including the 42.45 fs default, centre offsets and delays 0..8 widths, both argument orders; a case = one judged call; cell = (decade of the narrower width, equal/unequal widths, delay in widths)"},
